@@ -64,7 +64,9 @@ class Result:
         return ok
 
     def err(self, rule: str, msg: str):
-        self.errors.append(f"{rule}: {msg}")
+        text = f"{rule}: {msg}"
+        if text not in self.errors:   # one line per distinct cause (a rule may meet the same limit on every instance)
+            self.errors.append(text)
 
     def note(self, msg: str):
         self.notes.append(msg)
